@@ -190,7 +190,7 @@ def sln_adjoint(mat, inv=None, **kwargs):
     if inv is None:
         inv = utils.invert(mat)
 
-    kwargs.setdefault("like", mat)
+    kwargs.setdefault("like", mat @ inv)
 
     return sln_linear_action(
         lambda M: mat @ M @ inv,
@@ -202,7 +202,7 @@ def gln_adjoint(mat, inv=None, **kwargs):
     if inv is None:
         inv = utils.invert(mat)
 
-    kwargs.setdefault("like", mat)
+    kwargs.setdefault("like", mat @ inv)
 
     return linear_matrix_action(
         lambda M: mat @ M @ inv,
